@@ -1,5 +1,7 @@
 package ringz
 
+import "unsafe"
+
 // Added to a scratch copy of the package by /verif (never to /repo): read-only
 // access to the representation for the structural projection.
 
@@ -25,4 +27,21 @@ func VerifSyncRingSetBase[T any](r *SyncRing[T], base uint32) {
 	for i := range r.values {
 		r.values[i].pos = base + ((uint32(i) - base) & r.mask)
 	}
+}
+
+// VerifSyncRingVar names the shared variable an atomic operation touched: "head", "tail" or
+// "seq" with the slot index.
+func VerifSyncRingVar[T any](r *SyncRing[T], addr unsafe.Pointer) (string, int) {
+	switch addr {
+	case unsafe.Pointer(&r.head):
+		return "head", -1
+	case unsafe.Pointer(&r.tail):
+		return "tail", -1
+	}
+	for i := range r.values {
+		if addr == unsafe.Pointer(&r.values[i].pos) {
+			return "seq", i
+		}
+	}
+	return "?", -1
 }
